@@ -90,12 +90,14 @@ def gen_case(rng):
   storage = []
   for i in range(ns):
     r = rng.random()
-    storage.append(dict(haspat=0 if r < 0.15 else 1, hasret=0 if 0.15 <= r < 0.3 else 1, pat=gen_pat(rng),
+    # a third of the sections repeat the pattern of an earlier section (shadowed, or the usable twin of an unusable one)
+    pat = dict(rng.choice(storage)['pat']) if storage and rng.random() < 0.35 else gen_pat(rng)
+    storage.append(dict(haspat=0 if r < 0.15 else 1, hasret=0 if 0.15 <= r < 0.3 else 1, pat=pat,
                         rets=[gen_ret(rng) for _ in range(rng.randint(1, 3))]))
   na = rng.randint(0, 3)
   agg = []
   for i in range(na):
-    agg.append(dict(haspat=0 if rng.random() < 0.2 else 1, pat=gen_pat(rng),
+    agg.append(dict(haspat=0 if rng.random() < 0.2 else 1, pat=(dict(rng.choice(agg)['pat']) if agg and rng.random() < 0.35 else gen_pat(rng)),
                     xff=rng.choice([-1, 0, 10, 50, 100]), method=rng.randint(0, 5)))
   lits = [s['pat'] for s in storage + agg]
   base = ''.join(rng.choice('abcdx') for _ in range(rng.randint(1, 4)))
